@@ -14,6 +14,62 @@ func tokK(k sb.Kind) sb.Token {
 	return sb.Token{Kind: k}
 }
 
+// a registered type with Binary marshalling round-trips at every position (Go oracle; not in the model's universe)
+func typedRegisteredMarshaler(repU *Report) {
+	type holder struct {
+		S  Stamp
+		P  *Stamp
+		L  []Stamp
+		M  map[string]Stamp
+		A  any
+		PN *Stamp
+	}
+	v := holder{S: Stamp{1}, P: &Stamp{2}, L: []Stamp{{3}, {4}}, M: map[string]Stamp{"k": {5}}, A: Stamp{6}}
+	ts, err := marshalTokens(v, nil)
+	repU.Evaluations++
+	desc := "registered binary marshaler: " + truncate(descTokens(ts), 300)
+	if err != nil {
+		repU.violate("C01", "marshal-error", fmt.Sprintf("%v", err), desc)
+		return
+	}
+	var back holder
+	e := guard(func() error { return copyBudget(tokensFrom(ts), sb.Unmarshal(&back)) })
+	if e != nil || !reflect.DeepEqual(v, back) {
+		repU.violate("C01", "roundtrip-error", fmt.Sprintf("a registered type with MarshalBinary does not round-trip: %v, got %+v", e, back), desc)
+	}
+}
+
+// maps whose key streams have different token counts (the order is by the first differing token, not by length)
+func typedKeyOrder(repM *Report, wM *CaseWriter, r *rand.Rand) {
+	s1, s2, s3 := []int{5}, []int{1, 2, 3}, []int{}
+	vals := []any{
+		map[any]int{[3]int{1, 2, 3}: 1, [1]int{9}: 2, uintptr(5): 3, "s": 4, [2]int8{0, 1}: 5},
+		map[*[]int]bool{&s1: true, &s2: false, &s3: true},
+		map[[2]any]int{{1, "a"}: 1, {[2]int{1, 2}, 0}: 2, {nil, [3]bool{true, false, true}}: 3},
+		map[any]string{struct{ A, B int }{1, 2}: "x", struct{ A int }{9}: "y", int8(3): "z"},
+		map[any]any{[2]string{"b", ""}: nil, [1]string{"c"}: 1, "a": [2]int{1, 2}},
+	}
+	for _, x := range vals {
+		v := reflect.ValueOf(x)
+		ts, err := marshalTokens(x, nil)
+		repM.Evaluations++
+		desc := fmt.Sprintf("key-order: type=%v", v.Type())
+		if err != nil {
+			repM.violate("C08", "marshal-error", fmt.Sprintf("%v", err), desc)
+			continue
+		}
+		if ok, msg := mapKeysAscending(ts); !ok {
+			repM.violate("C08", "map-keys-not-ascending", msg, desc)
+		}
+		rb := rebuildMaps(r, v)
+		ts2, e2 := marshalTokens(rb.Interface(), nil)
+		if e2 != nil || !tokensExactEq(ts, ts2) {
+			repM.violate("C08", "map-history-dependent", "the same content built through a different insertion/deletion history marshals differently", desc)
+		}
+		wM.add(fmt.Sprintf("MarshalCase %s %s %s %s", coqOpts(false, false, false), coqTy(v.Type()), coqGval(v), mobs(ts, err)), desc, true)
+	}
+}
+
 // hand-made (stream, target) pairs on the edges of the acceptance relation (C05)
 func typedTargeted(repU *Report, wU *CaseWriter, r *rand.Rand) {
 	reg := coqRegistry()
